@@ -359,8 +359,17 @@ def r5_chaining(ctx):
                and n.targets[0].id in pn] if loop is not None else []
         ctx.check('R5.chaining', f'{site(f)} walk advances', bool(adv), key(f, 'advance'), 'prev_node is not advanced inside the OMS walk')
         # initialisation from the ROADM / transceiver output target
+        # <prev_dp table>[band] = <output target of the ingress node> - <reference channel power>, the former being a local one of
+        # whose definitions is the ROADM's per-degree reference power (the local is identified by that definition, not by its name)
+        fdefs = local_defs(f.node)
+        pref = f.params[3] if len(f.params) > 3 else 'pref_ch_db'
+
+        def is_target(e):
+            return isinstance(e, ast.Name) and any(isinstance(v, ast.AST) and 'get_per_degree_ref_power' in ast.unparse(v)
+                                                   for _, v in fdefs.get(e.id, []))
         init = [n for n in walk_no_nested(f.node) if isinstance(n, ast.Assign) and isinstance(n.targets[0], ast.Subscript)
-                and ast.unparse(n.targets[0].value) == pd and 'this_node_out_power' in ast.unparse(n.value) and 'pref_ch_db' in ast.unparse(n.value)]
+                and ast.unparse(n.targets[0].value) == pd and isinstance(n.value, ast.BinOp) and isinstance(n.value.op, ast.Sub) and
+                is_target(n.value.left) and ast.unparse(n.value.right) == pref]
         ctx.check('R5.chaining', f'{site(f)} start of the walk', bool(init) and isinstance(init[0].value, ast.BinOp) and isinstance(init[0].value.op, ast.Sub),
                   key(f, 'start'), 'the walk does not start from (ROADM/transceiver output target - reference channel power)')
         tot = [n for n in walk_no_nested(f.node) if isinstance(n, ast.Assign) and isinstance(n.targets[0], ast.Subscript)
